@@ -119,7 +119,8 @@ def check_case(sink, seed, idx):  # noqa: C901
         cache = {}
 
         def f(x, *rest):
-            key = id(x)
+            # the result depends on EVERY argument (by identity): a rest leaf routed to the wrong call shows up as other result leaves
+            key = (id(x), *map(id, rest))
             if key not in cache:
                 cache[key] = [U.Leaf(('f', len(cache), j)) for j in range(n)]
             return ispec.unflatten(cache[key])
@@ -136,7 +137,8 @@ def check_case(sink, seed, idx):  # noqa: C901
                 return f(*args[1:])
             return f(*args)
 
-        rests = [otree] if rng.random() < 0.3 else []
+        n_rests = rng.choice([0, 0, 1, 2, 2, 3])
+        rests = [ospec.unflatten([U.Leaf(('rest', r, i)) for i in range(m)]) for r in range(n_rests)]  # distinct trees with distinct leaves
         given = ispec if rng.random() < 0.5 else None
         k6, tm = outcome(lambda: tfn(g, otree, *rests, inner_treespec=given, **kw))
         sink.check(k6 == 'ok', f'{name}/raises', f'{name} succeeds for a fixed inner shape', ident, lambda: repr(tm)[:300])
@@ -152,7 +154,8 @@ def check_case(sink, seed, idx):  # noqa: C901
                                              and all(_eq(x, y) for x, y in zip(a if first == 'path' else a.path, p)) for a, p in zip(got, paths))
                 sink.check(okp, f'{name}/first-argument', f'{name} passes the path/accessor first', ident, lambda: (got, paths))
             sink.count(f'transpose-maps:{name}')
-            sink.cell('variant-profile', name, po, given is not None, bool(rests))
+            sink.cell('variant-profile', name, po, given is not None, len(rests))
+            sink.count(f'transpose-maps-with-rests:{len(rests)}')
         # deviating inner shape: one result is not a suffix of the inner structure -> ValueError (any variant, any position; with a given
         # inner structure also the first result)
         if m >= 2 and ispec.num_nodes > 1:
@@ -222,5 +225,7 @@ def finalize(sink, tier, seed):
     sink.require('rejections:namespace')
     sink.require('deviating-results')
     sink.require('first-result-defines', 100)
+    for r in (0, 1, 2, 3):
+        sink.require(f'transpose-maps-with-rests:{r}', 50)
     for v in ('tree_transpose_map', 'tree_transpose_map_with_path', 'tree_transpose_map_with_accessor'):
         sink.require(f'transpose-maps:{v}')
